@@ -35,19 +35,24 @@ SVC_NOTE = BASE_TB + (' The service model (Model/Service.v: 20 datastore primiti
   'sequences on the real VizierServicer (RAM and SQLite) and comparing responses, the trace of datastore calls and the final stored state '
   'inside coqc. Pythia is a scripted oracle; timestamps, messages and resource-name parsing are not modelled.')
 CLAIMED['C01'] = dict(
-   text=('Theorems for every state and argument (closed under the global context): a call on a missing study / missing trial, any mutation '
-         'of a non-active study, and Complete/Measure/Stop/CheckEarlyStop on a non-active trial end with the documented error class (or the '
-         'documented no-op) and leave the stored state syntactically unchanged; CompleteTrial/AddTrialMeasurement/StopTrial on an active trial '
-         'rewrite exactly that trial by a legal transition (trans_ok) and nothing else (C01_*_effect, C01_rewrite_is_local). PARTIAL: the '
-         'lifecycle frame for SuggestTrials, CreateTrial, Delete*, UpdateMetadata, CheckEarlyStop and the refinement to a reference model are '
-         'decided by the correspondence + per-step monitor (legal transitions, immutability, illegal-call table from the docstrings), not by a theorem.'),
-   note=SVC_NOTE, technique='Rocq proof (symbolic execution of handler programs) + trace-level correspondence', design='5/C01')
+   text=('Theorems for every state and argument (closed under the global context): THE FRAME THEOREM - across any RPC (all 17 kinds, any '
+         'arguments, any Pythia answer, success or failure) every trial stored before and after the call has evolved by a legal transition '
+         '(same id and parameters, state moved along REQUESTED -> ACTIVE -> STOPPING -> SUCCEEDED | INFEASIBLE or stayed, completed trials '
+         'keep state, measurements and final measurement), for every state with unique study keys and trial ids (C01_frame), and these '
+         'invariants hold in every reachable state, so the statement holds along every history (C01_frame_along_every_history; proved by a '
+         'tracking relation composed over the calls of each handler, with a pool invariant through the assignment loop of SuggestTrials). '
+         'Also: a call on a missing study / missing trial, any mutation of a non-active study, and Complete / Measure / Stop / CheckEarlyStop on '
+         'a non-active trial end with the documented error class (or the documented no-op) and leave the stored state syntactically unchanged; '
+         'Complete / Measure / Stop on an active trial rewrite exactly that trial (C01_*_effect, C01_rewrite_is_local). PARTIAL: that the '
+         'handler programs are the code is decided by the trace-level correspondence + per-step monitor (legal transitions, immutability, '
+         'illegal-call table from the docstrings), incl. sequences dense in half-failing datastore writes.'),
+   note=SVC_NOTE, technique='Rocq proof (tracking relation + loop invariant over handler programs; symbolic execution) + trace-level correspondence', design='5/C01')
 CLAIMED['C02'] = dict(
    text=('Theorems (closed under the global context): id allocation max+1 always succeeds, is larger than every id present and raises the '
          'maximum by one (C02_fresh_ids, C02_max_id_bounds_all); an unfinished operation of the same worker is returned unchanged; STICKY: a '
          'worker that already holds at least `count` ACTIVE trials and has no unfinished operation gets exactly its first `count` ACTIVE '
          'trials again in a finished operation without error, and neither trials nor study change (C02_sticky, for every state, count and '
-         'Pythia answer). PARTIAL: the three-source order (own ACTIVE, queued REQUESTED, new) and the queueing of surplus suggestions are '
+         'Pythia answer; its numbering hypothesis is an invariant of all reachable states: C02_sticky_on_reachable_states). PARTIAL: the three-source order (own ACTIVE, queued REQUESTED, new) and the queueing of surplus suggestions are '
          'decided by correspondence + monitor over generated histories with over- and under-delivering algorithms and long studies (ids '
          'beyond 10, 20), on RAM and SQLite.'),
    note=SVC_NOTE, technique='Rocq proof (symbolic execution of the SuggestTrials program, list lemmas on id allocation) + trace-level correspondence + monitor', design='5/C02')
@@ -65,7 +70,7 @@ CLAIMED['C06'] = dict(
    note=SVC_NOTE, technique='Rocq proof (state invariant by structural induction over handler programs) + trace-level correspondence + fault-sequence monitor', design='5/C06')
 CLAIMED['C07'] = dict(
    text=('Both backends are tied by trace-level correspondence to ONE model of the DataStore contract, so backend equivalence is equality of '
-         'two runs of one function (C07_same_calls_same_observations); theorem C07_operation_numbering_agrees covers the place where they '
+         'two runs of one function (C07_same_calls_same_observations); theorems C07_operation_numbering_agrees / ..._on_reachable_states (numbering invariant over all histories) cover the place where they '
          'compute differently (len vs max). The same sequences are also replayed on RAM, in-memory SQLite and an SQLite file and compared '
          'pairwise after every step. Two real divergences were found and repaired (fix: commits).'),
    note=SVC_NOTE + ' Other SQL engines are not covered.', technique='refinement of both backends to one Rocq model + differential replay', design='5/C07')
